@@ -174,7 +174,7 @@ pub fn main(args: &[String]) -> i32 {
         let mut r = rng(15);
         for i in 0..n {
             let s = gen(&mut r);
-            run_scenario(&mut out, &s, i % 8);
+            guarded(&mut out, |o| run_scenario(o, &s, i % 8));
         }
     }
     out.flush();
